@@ -99,7 +99,8 @@ PROPS = {
         explanation="result-shape postconditions, 'update never raises on a query result' and per-iteration equivalence of update and query_by_utility "
                     "proved on the real bodies; chunkings compared at run time"),
     "C11": dict(
-        units=[("contracts.classifiers", has("C11")), ("contracts.probabilities", has("C11"))],
+        units=[("contracts.classifiers", has("C11")), ("contracts.probabilities", has("C11")), ("contracts.classifier_validate", None)],
+        obligations_of={"contracts.classifier_validate": hasnot("C13.")},
         bounded=[("bounded/models.py", "C11")],
         trusted=[L2_BASE],
         assumptions=["kernel values / mixture responsibilities are non-negative", "AnnotatorLogisticRegression and the mixture model are numerical optimisers: bounded only"],
@@ -111,7 +112,8 @@ PROPS = {
         assumptions=["the wrapped estimator's fit is a function of its arguments (and permutation invariant)"],
         explanation="fit contracts: the wrapped estimator is fitted on the labeled rows only; paired fits with / without / moved unlabeled rows and weights"),
     "C13": dict(
-        units=[("contracts.frames", has("F1."))],
+        units=[("contracts.frames", has("F1.")), ("contracts.classifier_validate", None)],
+        obligations_of={"contracts.classifier_validate": hasnot("C11.")},
         bounded=[("bounded/stream_budget.py", "C13"), ("bounded/models.py", "C13")],
         trusted=[L1_BASE],
         assumptions=["history-freedom of fit is compared at run time (refit vs fresh clone); only the parameter frame is proved"],
@@ -186,6 +188,14 @@ def run(prop, tier, seed, write_baseline=False, only=None):
             continue
         groups.append(units_of(mod, only, pred))
     run_all(chk, groups, tier)
+    # a unit may carry obligations of several properties (one symbolic execution of a function, postconditions taken from different
+    # property statements): a check reports only the obligations that state its own property
+    for mod, keep in spec.get("obligations_of", {}).items():
+        pre = mod.split(".")[-1] + "."
+        for u in chk.unit_results:
+            if u.get("unit", "").startswith(pre) and u.get("obligations"):
+                u["obligations"] = [o for o in u["obligations"] if keep(o["name"])]
+                u["allow_empty"] = True
     if write_baseline:
         _wb(chk)
     from pyvc.driver import ROOT
